@@ -20,6 +20,8 @@ type Universe struct {
 	vals   [][]byte
 	ctr    int
 	mu     sync.Mutex // the interning tables are shared by goroutines in concurrent drivers
+	// FragBoost makes values carrying fragments of root records much more frequent (crash driver)
+	FragBoost bool
 }
 
 // name ids are 1-based ranks in sorted order.  Names starting with 'r' use
@@ -139,6 +141,20 @@ func (u *Universe) NewValue(rng *rand.Rand, big bool, rootFragment []byte) ([]by
 		b = append(tag, magicBeg...)
 		b = append(b, magicBeg...)
 		b = append(b, 0, 0, 0, 4)
+	case (r == 3 || (u.FragBoost && r >= 8 && r <= 11)) && len(rootFragment) >= 44:
+		switch rng.Intn(4) {
+		case 0: // exactly the trailer: offset, length, MagicEnd MagicEnd
+			b = append(tag, rootFragment[len(rootFragment)-24:]...)
+		case 1: // a stale copy of the whole record
+			b = append(tag, rootFragment...)
+		default:
+			cut := 1 + rng.Intn(len(rootFragment))
+			if rng.Intn(2) == 0 {
+				b = append(tag, rootFragment[:cut]...)
+			} else {
+				b = append(tag, rootFragment[len(rootFragment)-cut:]...)
+			}
+		}
 	case r == 3 && len(rootFragment) > 0:
 		// a torn copy of an earlier root record (head or tail part)
 		cut := 1 + rng.Intn(len(rootFragment))
